@@ -49,3 +49,10 @@ CLAIMED['C16'] = dict(
   text='Held (up to listed known findings, each confined to a stratum of programs using the named feature) on every program x history executed: hundreds (quick) to thousands (thorough) of DAGs over one-to-one, one-to-many (fixed and moving keys), singleton, join (checked/unchecked), merge join, nested join with merge, map, index and index-as-collection shapes, with late subscribers and late-built nodes; millions of stream events checked in thorough. A state mismatch must persist over two further barrier rounds before it is reported.',
   note='Trusted: the reference recomputation generated from the same descriptor as the krt transformation (shares no krt code), the quiescence detector (all other goroutines parked and none in a krt sync wait), coalesced updates accepted as the EventStream contract allows. Not driven: informer-backed inputs, status collections, Index.AsCollection event streams. Programs containing a known-bad feature (nil labels with FilterSelects, overlapping join keys, moving many-keys, racing nested-join membership) report under their stratum key, which can hide a different defect confined to the same nodes. A krt goroutine nil dereference on concurrent nested-join member removal (repro: krtmon repro crash) is kept out of the generator and described in DESIGN.md.',
 )
+
+CLAIMED['C08'] = dict(
+  category='translation_validation',
+  technique='runtime monitoring / differential translation validation: PRNG and enumerated AuthorizationPolicy sets (each passed through the real validator) are translated by the real authz builder; an Envoy RBAC interpreter over the emitted filters and an independent policy-semantics evaluator over the API objects decide generated requests (literals and near misses, HTTP and raw TCP); decisions must agree, one-sided only where the property allows stricter',
+  text='Held (up to two listed root causes) on every (policy set, workload, request) evaluated: thousands of policy sets and a 4172-case single-field sweep, millions of request decisions per run, 830 field x form x action x protocol combinations, sidecars and gateways, root-namespace and selector scoping, trust-domain aliases, JWT claims, path templates. Disagreements are shrunk and keyed by a named root-cause hypothesis or by direction+protocol+field:form.',
+  note='Trusted: reference policy evaluator (our reading of the AuthorizationPolicy API docs; combinations the docs leave open are three-valued and not judged), the Envoy RBAC interpreter (36 matcher kinds; unknown kinds => inconclusive), Go regexp for safe_regex. Not generated: experimental filters, targetRef/waypoint attachment, IPv4-mapped IPv6, query strings, multi-wildcard values.',
+)
